@@ -5,7 +5,8 @@ import PV.Props.C01
 # C01 (core) — the model code generator is correct on the IC10 machine
 
 For every program `p` of the three-address core language (ALU operations, device reads and writes, yield / sleep,
-`if`/`else`, `while` on a comparison, `while True`, `break`, `continue`) whose branches use a negating suffix (`NegOk`, discharged for the real
+`if`/`else`, `while` on a comparison, `while True`, `break`, `continue`, reads and writes of the own stack, and calls of leaf
+procedures — parameters and results travel through stack cells —) whose branches use a negating suffix (`NegOk`, discharged for the real
 suffix tables by `PV.Props.C01.branch_neg_correct`), every environment (= every behaviour of the attached devices), every
 initial register file and every fuel:
 
@@ -26,66 +27,152 @@ variable {V : Type}
 theorem codeAt_self (c : List (Instr Reg V)) : CodeAt c 0 c := by
   intro i _; simp
 
-/-- **terminating programs**: same registers, same effects, then the chip stops for good -/
+/-! ### program layout: main code, then one block per procedure -/
+
+theorem compProc_length (lit : Nat → V) (entry : Nat → Nat) (b : Stmt V) (k : Nat) : (compProc lit entry b k).length = blockSize b := by
+  simp [compProc, comp_length, blockSize, nopI]
+
+theorem codeAt_flatten (pre : List (Instr Reg V)) : ∀ (Ls : List (List (Instr Reg V))) (k : Nat) (c : List (Instr Reg V)), Ls[k]? = some c →
+    CodeAt (pre ++ Ls.flatten) (pre.length + ((Ls.take k).map List.length).sum) c := by
+  intro Ls
+  induction Ls generalizing pre with
+  | nil => intro k c h; simp at h
+  | cons L rest ih =>
+    intro k c h
+    cases k with
+    | zero =>
+      simp only [List.getElem?_cons_zero, Option.some.injEq] at h
+      subst h
+      intro i hi
+      simp only [List.take_zero, List.map_nil, List.sum_nil, Nat.add_zero, List.flatten_cons]
+      rw [List.getElem?_append_right (by omega)]
+      simp [List.getElem?_append_left hi]
+    | succ k =>
+      simp only [List.getElem?_cons_succ] at h
+      have := ih (pre ++ L) k c h
+      simp only [List.flatten_cons, List.take_succ_cons, List.map_cons, List.sum_cons]
+      rw [List.append_assoc] at this
+      have e : (pre ++ L).length + ((rest.take k).map List.length).sum = pre.length + (L.length + ((rest.take k).map List.length).sum) := by
+        simp [Nat.add_assoc]
+      rw [e] at this
+      exact this
+
+theorem blocks_get (lit : Nat → V) (entry : Nat → Nat) (procs : List (Stmt V)) (k : Nat) (hk : k < procs.length) :
+    (blocks lit entry procs)[k]? = some (compProc lit entry (procOf procs k) k) := by
+  simp [blocks, procOf, List.getElem?_map, List.getElem?_zipIdx, hk, List.getD_eq_getElem?_getD]
+
+theorem blocks_lengths (lit : Nat → V) (entry : Nat → Nat) (procs : List (Stmt V)) (k : Nat) :
+    (((blocks lit entry procs).take k).map List.length).sum = ((procs.take k).map blockSize).sum := by
+  have : (blocks lit entry procs).map List.length = procs.map blockSize := by
+    simp only [blocks, List.map_map]
+    apply List.ext_getElem?
+    intro i
+    simp only [List.getElem?_map, List.getElem?_zipIdx]
+    cases procs[i]? <;> simp [compProc_length]
+  rw [List.map_take, this, ← List.map_take]
+
+/-- every procedure of the program sits at its entry line -/
+theorem compProg_proc (lit : Nat → V) (main : Stmt V) (procs : List (Stmt V)) (k : Nat) (hk : k < procs.length) :
+    CodeAt (compProg lit main procs) (entryOf (size main) procs k)
+      (compProc lit (entryOf (size main) procs) (procOf procs k) k) := by
+  have h := codeAt_flatten (comp lit (entryOf (size main) procs) main 0 0 0 0) (blocks lit (entryOf (size main) procs) procs) k _
+    (blocks_get lit _ procs k hk)
+  rw [comp_length, blocks_lengths] at h
+  exact h
+
+theorem compProg_main (lit : Nat → V) (main : Stmt V) (procs : List (Stmt V)) :
+    CodeAt (compProg lit main procs) 0 (comp lit (entryOf (size main) procs) main 0 0 0 0) := by
+  intro i hi
+  simp [compProg, List.getElem?_append_left hi]
+
+/-- **programs that keep running** (the normal case on the chip: `while True:` at the end), with leaf procedures: every effect
+    trace the source reaches is reached by the chip, with the same stack memory and the same registers except `ra` -/
+theorem compile_correct_running (sem : Sem V) (env : Env V) (lit : Nat → V) (hlit : ∀ n, sem.toAddr (lit n) = some n)
+    (hof : ∀ n, sem.toAddr (sem.ofNat n) = some n) (main : Stmt V) (procs : List (Stmt V))
+    (hmain : Good sem (fun k => k < procs.length) main) (hprocs : ∀ k, k < procs.length → Good sem (fun _ => False) (procOf procs k))
+    (fuel : Nat) (σ σ' : SSt V) (h : exec sem env (procOf procs) fuel main σ = .timeout σ') :
+    ∃ k, fuel ≤ k ∧ (run sem env (compProg lit main procs) k (mk σ 0)).trace = σ'.trace ∧
+      (run sem env (compProg lit main procs) k (mk σ 0)).mem = σ'.mem ∧
+      (∀ r, r ≠ (Special.ra : Reg) → (run sem env (compProg lit main procs) k (mk σ 0)).regs r = σ'.regs r) ∧
+      (run sem env (compProg lit main procs) k (mk σ 0)).halted = false := by
+  have hok : ∀ k, k < procs.length → ProcOk sem lit (entryOf (size main) procs) (procOf procs) (compProg lit main procs) k :=
+    fun k hk => ⟨compProg_proc lit main procs k hk, hprocs k hk⟩
+  obtain ⟨k, pc, hle, hk⟩ := (sim sem env lit _ (procOf procs) (compProg lit main procs) hlit hof _ hok fuel main hmain 0 0 0 0 σ (mk σ 0)
+    (compProg_main lit main procs) (at_mk σ 0)).2 σ' h
+  exact ⟨k, hle, hk.trace, hk.mem, hk.regs, hk.halted⟩
+
+/-- **terminating programs** (no procedure emitted after the main code): the chip reaches the line after the program with the
+    source's final registers (except `ra`), stack and effects, then stops, and the trace never changes again -/
 theorem compile_correct_done (sem : Sem V) (env : Env V) (lit : Nat → V) (hlit : ∀ n, sem.toAddr (lit n) = some n)
-    (p : Stmt V) (hneg : NegOk sem p) (mem : Nat → V) (fuel : Nat) (σ σ' : SSt V)
-    (h : exec sem env fuel p σ = .done σ') :
-    ∃ k, run sem env (comp lit p 0 0 0) k (mk σ mem 0) = mk σ' mem (size p) ∧
-      ∀ j, (run sem env (comp lit p 0 0 0) (k + (j + 1)) (mk σ mem 0)).trace = σ'.trace ∧
-           (run sem env (comp lit p 0 0 0) (k + (j + 1)) (mk σ mem 0)).halted = true := by
-  obtain ⟨k, hk⟩ := (sim sem env lit hlit (comp lit p 0 0 0) mem fuel p hneg 0 0 0 σ (codeAt_self _)).1 .norm σ' h
+    (hof : ∀ n, sem.toAddr (sem.ofNat n) = some n) (p : Stmt V) (hgood : Good sem (fun _ => False) p)
+    (fuel : Nat) (σ σ' : SSt V) (h : exec sem env (fun _ => .skip) fuel p σ = .done σ') :
+    ∃ k, At (run sem env (comp lit (fun _ => 0) p 0 0 0 0) k (mk σ 0)) σ' (size p) ∧
+      ∀ j, (run sem env (comp lit (fun _ => 0) p 0 0 0 0) (k + (j + 1)) (mk σ 0)).trace = σ'.trace ∧
+           (run sem env (comp lit (fun _ => 0) p 0 0 0 0) (k + (j + 1)) (mk σ 0)).halted = true := by
+  have hok : ∀ k, (fun _ : Nat => False) k → ProcOk sem lit (fun _ => 0) (fun _ => Stmt.skip) (comp lit (fun _ => 0) p 0 0 0 0) k :=
+    fun k hk => hk.elim
+  obtain ⟨k, hk, _⟩ := (sim sem env lit (fun _ => 0) (fun _ => .skip) (comp lit (fun _ => 0) p 0 0 0 0) hlit hof _ hok fuel p hgood 0 0 0 0 σ (mk σ 0)
+    (codeAt_self _) (at_mk σ 0)).1 .norm σ' h
   simp only [Nat.zero_add, land] at hk
   refine ⟨k, hk, ?_⟩
   intro j
-  rw [run_add, hk]
-  have hend : (comp lit p 0 0 0)[(mk σ' mem (size p)).pc]? = none := by
+  rw [run_add]
+  generalize run sem env (comp lit (fun _ => 0) p 0 0 0 0) k (mk σ 0) = st at hk
+  have hend : (comp lit (fun _ => 0) p 0 0 0 0)[st.pc]? = none := by
     apply List.getElem?_eq_none_iff.mpr
-    simp [mk, comp_length]
-  have hstep : step sem env (comp lit p 0 0 0) (mk σ' mem (size p)) = { mk σ' mem (size p) with halted := true } := by
-    simp only [step]
-    have : (mk σ' mem (size p)).halted = false := rfl
-    simp only [this, Bool.false_eq_true, if_false, hend]
-  have hhalt : ∀ m (s : St Reg V), s.halted = true → run sem env (comp lit p 0 0 0) m s = s := by
+    simp [hk.pc, comp_length]
+  have hstep : step sem env (comp lit (fun _ => 0) p 0 0 0 0) st = { st with halted := true } := by
+    simp only [step, hk.halted, Bool.false_eq_true, if_false, hend]
+  have hhalt : ∀ m (s : St Reg V), s.halted = true → run sem env (comp lit (fun _ => 0) p 0 0 0 0) m s = s := by
     intro m
     induction m with
     | zero => intro s _; rfl
     | succ m ih =>
       intro s hs
-      show run sem env (comp lit p 0 0 0) m (step sem env (comp lit p 0 0 0) s) = s
-      have : step sem env (comp lit p 0 0 0) s = s := by simp [step, hs]
+      show run sem env (comp lit (fun _ => 0) p 0 0 0 0) m (step sem env (comp lit (fun _ => 0) p 0 0 0 0) s) = s
+      have : step sem env (comp lit (fun _ => 0) p 0 0 0 0) s = s := by simp [step, hs]
       rw [this]; exact ih s hs
-  have e : run sem env (comp lit p 0 0 0) (j + 1) (mk σ' mem (size p)) =
-      run sem env (comp lit p 0 0 0) j (step sem env (comp lit p 0 0 0) (mk σ' mem (size p))) := rfl
+  have e : run sem env (comp lit (fun _ => 0) p 0 0 0 0) (j + 1) st =
+      run sem env (comp lit (fun _ => 0) p 0 0 0 0) j (step sem env (comp lit (fun _ => 0) p 0 0 0 0) st) := rfl
   rw [e, hstep, hhalt j _ rfl]
-  exact ⟨rfl, rfl⟩
+  exact ⟨hk.trace, rfl⟩
 
-/-- **programs that keep running**: every trace the source reaches is reached by the chip -/
-theorem compile_correct_running (sem : Sem V) (env : Env V) (lit : Nat → V) (hlit : ∀ n, sem.toAddr (lit n) = some n)
-    (p : Stmt V) (hneg : NegOk sem p) (mem : Nat → V) (fuel : Nat) (σ σ' : SSt V)
-    (h : exec sem env fuel p σ = .timeout σ') :
-    ∃ k, fuel ≤ k ∧ (run sem env (comp lit p 0 0 0) k (mk σ mem 0)).trace = σ'.trace ∧
-      (run sem env (comp lit p 0 0 0) k (mk σ mem 0)).regs = σ'.regs ∧ (run sem env (comp lit p 0 0 0) k (mk σ mem 0)).halted = false := by
-  obtain ⟨k, pc, hle, hk⟩ := (sim sem env lit hlit (comp lit p 0 0 0) mem fuel p hneg 0 0 0 σ (codeAt_self _)).2 σ' h
-  exact ⟨k, hle, by rw [hk]; rfl, by rw [hk]; rfl, by rw [hk]; rfl⟩
+/-! ### the hypothesis `Good` for what the real tables produce -/
 
-/-! ### the hypothesis `NegOk` for what the real tables produce -/
+theorem opndOkB_sound (o : Opnd Reg V) (h : opndOkB o = true) : opndOk o := by
+  cases o with
+  | reg r => simpa [opndOkB, opndOk] using h
+  | num v => trivial
 
-theorem pairsOk_sound (sem : Sem V) (pairs : List (String × String × Nat))
-    (hp : ∀ p ∈ pairs, ∀ vals : List V, vals.length = p.2.2 → sem.cond p.2.1 vals = !sem.cond p.1 vals) :
-    ∀ s : Stmt V, pairsOk pairs s = true → NegOk sem s := by
+theorem argsOk_sound (args : List (Opnd Reg V)) (h : args.all opndOkB = true) : ∀ o ∈ args, opndOk o := by
+  intro o ho
+  rw [List.all_eq_true] at h
+  exact opndOkB_sound o (h o ho)
+
+theorem goodB_sound (sem : Sem V) (pairs : List (String × String × Nat)) (procs : List Nat) (ok : Nat → Prop)
+    (hp : ∀ p ∈ pairs, ∀ vals : List V, vals.length = p.2.2 → sem.cond p.2.1 vals = !sem.cond p.1 vals)
+    (hprocs : ∀ k ∈ procs, ok k) :
+    ∀ s : Stmt V, goodB pairs procs s = true → Good sem ok s := by
   intro s
   induction s with
+  | alu x op args => intro h; simp only [goodB, Bool.and_eq_true, bne_iff_ne, ne_eq] at h; exact ⟨h.1, argsOk_sound args h.2⟩
+  | load x q args => intro h; simp only [goodB, Bool.and_eq_true, bne_iff_ne, ne_eq] at h; exact ⟨h.1, argsOk_sound args h.2⟩
+  | store q args => intro h; exact argsOk_sound args h
+  | sleep a => intro h; exact opndOkB_sound a h
+  | getm x a => intro h; simp only [goodB, Bool.and_eq_true, bne_iff_ne, ne_eq] at h; exact ⟨h.1, opndOkB_sound a h.2⟩
+  | putm a v => intro h; simp only [goodB, Bool.and_eq_true] at h; exact ⟨opndOkB_sound a h.1, opndOkB_sound v h.2⟩
+  | call k => intro h; simp only [goodB, List.contains_iff_mem] at h; exact hprocs k h
   | seq p q ihp ihq =>
-    intro h; simp only [pairsOk, Bool.and_eq_true] at h; exact ⟨ihp h.1, ihq h.2⟩
+    intro h; simp only [goodB, Bool.and_eq_true] at h; exact ⟨ihp h.1, ihq h.2⟩
   | ite c neg args p q ihp ihq =>
-    intro h; simp only [pairsOk, Bool.and_eq_true, List.contains_iff_mem] at h
-    exact ⟨hp (c, neg, args.length) h.1.1, ihp h.1.2, ihq h.2⟩
+    intro h; simp only [goodB, Bool.and_eq_true, List.contains_iff_mem] at h
+    exact ⟨hp (c, neg, args.length) h.1.1.1, argsOk_sound args h.1.1.2, ihp h.1.2, ihq h.2⟩
   | ifThen c neg args p ihp =>
-    intro h; simp only [pairsOk, Bool.and_eq_true, List.contains_iff_mem] at h
-    exact ⟨hp (c, neg, args.length) h.1, ihp h.2⟩
+    intro h; simp only [goodB, Bool.and_eq_true, List.contains_iff_mem] at h
+    exact ⟨hp (c, neg, args.length) h.1.1, argsOk_sound args h.1.2, ihp h.2⟩
   | «while» c neg args body ih =>
-    intro h; simp only [pairsOk, Bool.and_eq_true, List.contains_iff_mem] at h
-    exact ⟨hp (c, neg, args.length) h.1, ih h.2⟩
+    intro h; simp only [goodB, Bool.and_eq_true, List.contains_iff_mem] at h
+    exact ⟨hp (c, neg, args.length) h.1.1, argsOk_sound args h.1.2, ih h.2⟩
   | loop body ih => intro h; exact ih h
   | _ => intro _; trivial
 
@@ -111,10 +198,11 @@ theorem real_pairs_negate (sem : Sem Int) (h : LinCond sem) :
     | (match vals, hlen with
        | [x], _ => simp only [hz, hnz]; rw [Bool.eq_iff_iff]; simp)
 
-/-- the two together: a core program whose branches come from the real tables satisfies the hypothesis of the theorems -/
-theorem negOk_of_real_tables (sem : Sem Int) (h : LinCond sem) (p : Stmt Int) (hp : pairsOk PV.Flatten.branchPairs p = true) :
-    NegOk sem p :=
-  pairsOk_sound sem _ (real_pairs_negate sem h) p hp
+/-- the two together: a core program that passes the executable check `goodB` against the real tables satisfies the hypothesis
+    of the theorems (`procs`: the procedures it may call) -/
+theorem good_of_real_tables (sem : Sem Int) (h : LinCond sem) (procs : List Nat) (ok : Nat → Prop) (hprocs : ∀ k ∈ procs, ok k)
+    (p : Stmt Int) (hp : goodB PV.Flatten.branchPairs procs p = true) : Good sem ok p :=
+  goodB_sound sem _ procs ok (real_pairs_negate sem h) hprocs p hp
 
 /-! non-vacuity: a counting loop with a device write, on integers -/
 def intSem : Sem Int :=
@@ -128,11 +216,21 @@ def demo : Stmt Int :=
   .seq (.alu 0 "add" [.num 0, .num 0])
     (.while "lt" "ge" [.reg 0, .num 3] (.seq (.alu 0 "add" [.reg 0, .num 1]) (.store "s" [.num (-7), .num 12, .reg 0])))
 
-example : NegOk intSem demo := by
-  refine ⟨trivial, ?_, trivial, trivial⟩
-  intro vals hv
-  match vals, hv with
-  | [x, y], _ => simp [intSem]
+example : Good intSem (fun _ => False) demo := by
+  refine ⟨⟨by decide, by intro o ho; simp at ho; rcases ho with rfl | rfl <;> trivial⟩, ?_, ?_, ⟨by decide, ?_⟩, ?_⟩
+  · intro vals hv
+    match vals, hv with
+    | [x, y], _ => simp [intSem]
+  · intro o ho; simp at ho; rcases ho with rfl | rfl
+    · show (0 : Nat) ≠ 17; decide
+    · trivial
+  · intro o ho; simp at ho; rcases ho with rfl | rfl
+    · show (0 : Nat) ≠ 17; decide
+    · trivial
+  · intro o ho; simp at ho; rcases ho with rfl | rfl | rfl
+    · trivial
+    · trivial
+    · show (0 : Nat) ≠ 17; decide
 
 /-- line numbers are representable in this value domain (the hypothesis `hlit` of the theorems) -/
 example : ∀ n : Nat, intSem.toAddr ((fun k => (k : Int)) n) = some n := by
